@@ -39,8 +39,9 @@ Definition empty_beh : stage_beh :=
 Definition beh (sp : spec) (name : bytes) : stage_beh :=
   match assoc_get name sp with Some b => b | None => empty_beh end.
 
-Definition spec_oracle (sp : spec) : oracle :=
-  {| o_main := fun name args => eval_outs args [] (sb_outs (beh sp name));
+Definition spec_oracle_pol (pol : list bytes -> bool) (sp : spec) : oracle :=
+  {| o_nulls := pol;
+     o_main := fun name args => eval_outs args [] (sb_outs (beh sp name));
      o_split := fun name args =>
        match sb_chunks (beh sp name) with
        | ChunksFrom a ci =>
@@ -52,3 +53,6 @@ Definition spec_oracle (sp : spec) : oracle :=
        end;
      o_chunk := fun name merged => eval_outs merged [] (sb_chunk_outs (beh sp name));
      o_join := fun name args defs couts => eval_outs args couts (sb_outs (beh sp name)) |}.
+
+(* the canonical reading: a disabled call is null *)
+Definition spec_oracle (sp : spec) : oracle := spec_oracle_pol (fun _ => false) sp.
